@@ -189,13 +189,27 @@ theorem Grows.fanFailedIf {a b : St} (h : Grows a b) (state : Json) : Grows a (b
 theorem Grows.iterEnd {a b : St} (h : Grows a b) (name : Str) (i : Nat) (r : Res) : Grows a (b.iterEnd name i r) := by
   unfold St.iterEnd
   split
-  · exact h.push _ rfl rfl rfl
+  · split
+    · exact h
+    · exact h.push _ rfl rfl rfl
   · exact h
 
 theorem Grows.taskCall {a b : St} (h : Grows a b) (counts : List ((Str × Json) × Nat)) (res : Str) (p r : Json)
     (m : Nat) (to : Bool) (tEnd : Rat) :
     Grows a (b.taskCall counts res p (taskEv m r to) tEnd) :=
   h.trans (grows_taskCall _ _ _ _ _ _ (taskEv_plain m r to).1 (taskEv_plain m r to).2.1 (taskEv_plain m r to).2.2)
+
+/-- a task invocation cut by the execution's time limit: the request now, nothing later -/
+theorem grows_taskSilent (st : St) (counts : List ((Str × Json) × Nat)) (res : Str) (p : Json) (tEnd : Rat) :
+    Grows st (st.taskSilent counts res p tEnd) :=
+  ⟨[.lambdaScheduled p res], [st.clock], rfl, rfl,
+   by intro e he; simp at he; subst he; rfl,
+   rfl, rfl, rfl,
+   by intro t ht; simp at ht; subst ht; exact Rat.le_refl,
+   le_rmax_left _ _⟩
+
+theorem Grows.taskSilent {a b : St} (h : Grows a b) (counts : List ((Str × Json) × Nat)) (res : Str) (p : Json)
+    (tEnd : Rat) : Grows a (b.taskSilent counts res p tEnd) := h.trans (grows_taskSilent _ _ _ _ _)
 
 /-- the frame state (`St.fs`) is no part of the history -/
 theorem grows_fr (st : St) (f : FS → FS) : Grows st (st.fr f) := grows_same _ _ rfl rfl rfl Rat.le_refl
@@ -215,7 +229,7 @@ theorem Grows.after {a b : St} (h : Grows a b) (d : Rat) : Grows a (b.after d) :
 theorem Grows.retryAfter {a b : St} (h : Grows a b) (n : Str) (d : Rat) : Grows a (b.retryAfter n d) :=
   ((h.handover n).closeKeep).after d
 
-theorem Grows.fanFail {a b : St} (h : Grows a b) : Grows a { b with fanFail := true } :=
+theorem Grows.fanFail {a b : St} (h : Grows a b) (x : Bool) : Grows a { b with fanFail := x } :=
   h.trans (grows_same _ _ rfl rfl rfl Rat.le_refl)
 theorem Grows.multiFail {a b : St} (h : Grows a b) : Grows a { b with multiFail := true } :=
   h.trans (grows_same _ _ rfl rfl rfl Rat.le_refl)
@@ -243,7 +257,7 @@ structure GrowsAll (env : Env) (n : Nat) : Prop where
   joinAndLeave : ∀ states name state data ctx r res st,
     Grows st (joinAndLeave env n states name state data ctx r res st).2
   runBranches : ∀ bs params ctx st, Grows st (runBranches env n bs params ctx st).2
-  runItems : ∀ proc sel input items i mc be ctx st, Grows st (runItems env n proc sel input items i mc be ctx st).2
+  runItems : ∀ proc sel input items i mc be ctx bad st, Grows st (runItems env n proc sel input items i mc be ctx bad st).2
 
 theorem growsAll_zero (env : Env) : GrowsAll env 0 := by
   constructor <;> intros <;> simp [runFrom, leave, handleErr, runState, joinAndLeave, runBranches, runItems] <;>
@@ -269,40 +283,40 @@ theorem GrowsAll.thenJoin {a b : St} (h : Grows a b) (states : Json) (name : Str
 theorem GrowsAll.thenBranches {a b : St} (h : Grows a b) (bs : List Json) (params ctx : Json) :
     Grows a (Asl.runBranches env n bs params ctx b).2 := h.trans (ih.runBranches _ _ _ _)
 theorem GrowsAll.thenItems {a b : St} (h : Grows a b) (proc : Json) (sel : Option Json) (input : Json)
-    (items : List Json) (i mc : Nat) (be : Rat) (ctx : Json) :
-    Grows a (Asl.runItems env n proc sel input items i mc be ctx b).2 := h.trans (ih.runItems _ _ _ _ _ _ _ _ _)
+    (items : List Json) (i mc : Nat) (be : Rat) (ctx : Json) (bad : Bool) :
+    Grows a (Asl.runItems env n proc sel input items i mc be ctx bad b).2 := h.trans (ih.runItems _ _ _ _ _ _ _ _ _ _)
 
 set_option hygiene false in
 local macro "grow_step" : tactic => `(tactic|
   repeat' (first
     | split
     | exact Grows.refl _
-    | apply GrowsAll.thenFrom env n ih
-    | apply GrowsAll.thenLeave env n ih
-    | apply GrowsAll.thenErr env n ih
-    | apply GrowsAll.thenState env n ih
-    | apply GrowsAll.thenJoin env n ih
-    | apply GrowsAll.thenBranches env n ih
-    | apply GrowsAll.thenItems env n ih
-    | apply Grows.exit
-    | apply Grows.enter
-    | apply Grows.fanFailedIf
-    | apply Grows.waitUntil
-    | apply Grows.iterEnd
-    | apply Grows.taskCall
-    | apply Grows.fanFail
-    | apply Grows.multiFail
-    | apply Grows.handover
-    | apply Grows.closeKeep
-    | apply Grows.request
-    | apply Grows.pushLevel
-    | apply Grows.visit
-    | apply Grows.failTok
-    | apply Grows.launch
-    | apply Grows.join
-    | apply Grows.retryAfter
-    | apply Grows.after
-    | (apply Grows.push (hn := rfl) (hx := rfl) (hr := rfl))))
+    | with_reducible apply GrowsAll.thenFrom env n ih
+    | with_reducible apply GrowsAll.thenLeave env n ih
+    | with_reducible apply GrowsAll.thenErr env n ih
+    | with_reducible apply GrowsAll.thenState env n ih
+    | with_reducible apply GrowsAll.thenJoin env n ih
+    | with_reducible apply GrowsAll.thenBranches env n ih
+    | with_reducible apply GrowsAll.thenItems env n ih
+    | with_reducible apply Grows.exit
+    | with_reducible apply Grows.enter
+    | with_reducible apply Grows.fanFailedIf
+    | with_reducible apply Grows.waitUntil
+    | with_reducible apply Grows.iterEnd
+    | with_reducible apply Grows.taskCall
+    | with_reducible apply Grows.taskSilent
+    | with_reducible apply Grows.multiFail
+    | with_reducible apply Grows.handover
+    | with_reducible apply Grows.closeKeep
+    | with_reducible apply Grows.request
+    | with_reducible apply Grows.pushLevel
+    | with_reducible apply Grows.visit
+    | with_reducible apply Grows.failTok
+    | with_reducible apply Grows.launch
+    | with_reducible apply Grows.join
+    | with_reducible apply Grows.retryAfter
+    | with_reducible apply Grows.after
+    | (with_reducible apply Grows.push (hn := rfl) (hx := rfl) (hr := rfl))))
 
 theorem grows_runFrom_step (states : Json) (name : Str) (data ctx : Json) (r : Nat) (st : St) :
     Grows st (runFrom env (n + 1) states name data ctx r st).2 := by
@@ -323,7 +337,11 @@ theorem grows_joinAndLeave_step (states : Json) (name : Str) (state data ctx : J
     (res : Except Res (List Json)) (st : St) :
     Grows st (joinAndLeave env (n + 1) states name state data ctx r res st).2 := by
   simp only [joinAndLeave]
-  grow_step
+  split
+  · apply GrowsAll.thenErr env n ih
+    exact (Grows.refl _).fanFail _
+  · exact Grows.refl _
+  · grow_step
 
 theorem grows_runState_step (states : Json) (name : Str) (state data ctx : Json) (r : Nat) (st : St) :
     Grows st (runState env (n + 1) states name state data ctx r st).2 := by
@@ -402,12 +420,14 @@ theorem grows_runBranches_step (bs : List Json) (params ctx : Json) (st : St) :
     · exact Grows.refl _
 
 theorem grows_runItems_step (proc : Json) (sel : Option Json) (input : Json) (items : List Json) (i mc : Nat)
-    (be : Rat) (ctx : Json) (st : St) :
-    Grows st (runItems env (n + 1) proc sel input items i mc be ctx st).2 := by
+    (be : Rat) (ctx : Json) (bad : Bool) (st : St) :
+    Grows st (runItems env (n + 1) proc sel input items i mc be ctx bad st).2 := by
   cases items with
   | nil => simp only [runItems]; exact grows_waitUntil _ _
   | cons item items =>
     simp only [runItems]
+    split
+    · exact grows_waitUntil _ _
     have g00 : Grows st (if mc ≠ 0 ∧ i ≠ 0 ∧ i % mc = 0 then
         (st.waitUntil be).batch (ctxStateName ctx) (List.replicate (min mc (items.length + 1)) ((fldStr proc "StartAt").getD []))
       else st) := by
@@ -430,9 +450,9 @@ theorem grows_runItems_step (proc : Json) (sel : Option Json) (input : Json) (it
           rw [hr] at g1
           have g1' : Grows st0 (((s1.iterEnd (ctxStateName ctx) i r1).endBranch (isFailed r1)).at st0.clock) :=
             ((g1.iterEnd (ctxStateName ctx) i r1).endBranch _).at _ Rat.le_refl
-          have g2 := ih.runItems proc sel input items (i + 1) mc (rmax be s1.clock) ctx
+          have g2 := ih.runItems proc sel input items (i + 1) mc (rmax be s1.clock) ctx (bad || isFailed r1)
             (((s1.iterEnd (ctxStateName ctx) i r1).endBranch (isFailed r1)).at st0.clock)
-          cases hrest : runItems env n proc sel input items (i + 1) mc (rmax be s1.clock) ctx
+          cases hrest : runItems env n proc sel input items (i + 1) mc (rmax be s1.clock) ctx (bad || isFailed r1)
               (((s1.iterEnd (ctxStateName ctx) i r1).endBranch (isFailed r1)).at st0.clock) with
           | mk rest s2 =>
             rw [hrest] at g2
